@@ -870,7 +870,10 @@ J_locale_tables(e) ==
 J_humanize(e) ==
   LET a == e.a  p == e.post  L == LOC[a.locale]
       c == a.comps
-      dir == IF a.invert THEN "future" ELSE "past"
+      \* direction decided by the specification from the two values: the instance later than the reference is "future"
+      x == e.pre[1]  y == e.pre[2]
+      later == IF x.k = "time" THEN D3Lt(TimeD3(y.w), TimeD3(x.w)) ELSE I3Lt(PointOf(y), PointOf(x))
+      dir == IF later THEN "future" ELSE "past"
       cands == HumanCandidates(L, c, a.is_now, a.absolute, dir)
       li == LargestIdx(c)
   IN R(<<a.entry, a.locale, (IF li = 0 THEN "zero" ELSE HUnits[li]), B(a.is_now), B(a.absolute), dir,
@@ -878,6 +881,7 @@ J_humanize(e) ==
        IF p.k = "exc" THEN << <<"unexpected-exception", p.names>> >>
        ELSE IF p.k # "str" THEN << <<"kind", p.k>> >>
        ELSE V("non-empty", Len(p.v) > 0, "non-empty") \o V("placeholders-substituted", ~Has(p.v, 123) /\ ~Has(p.v, 125), "no { }")
+            \o V("harness-direction", a.invert = later, later)
             \o V("phrase", p.v \in cands, cands))
 J_in_words(e) ==
   LET a == e.a  p == e.post  L == LOC[a.locale]
@@ -934,7 +938,14 @@ J_native_cmp(e) ==
       ia == InstOf(a)  ib == InstOf(b)
       want == <<I3Lt(ia, ib), I3Le(ia, ib), I3Lt(ib, ia), I3Le(ib, ia), ia = ib, ia # ib>>
       interZoneFold == ~sameTz /\ (ClassOf(a) = "repeated" \/ ClassOf(b) = "repeated")
-  IN IF IsNaive(a) # IsNaive(b) THEN R(<<"mixed-naive-aware">>, <<>>)
+  IN IF IsNaive(a) # IsNaive(b)
+     THEN \* a naive value against an aware one: exactly what the native classes do - ordering and subtraction raise
+          \* TypeError, == is False and != True - whichever operand is the pendulum one
+          R(<<"mixed-naive-aware">>,
+            V("raises-as-native", p.err_pp = p.err_nn /\ p.err_pn = p.err_nn /\ p.err_np = p.err_nn, p.err_nn)
+            \o V("native-raises-TypeError", SubSeq(p.err_nn, 1, 4) = <<"TypeError", "TypeError", "TypeError", "TypeError">>
+                                            /\ SubSeq(p.err_nn, 5, 8) = <<"-", "-", "TypeError", "TypeError">>, "the standard library's behaviour")
+            \o V("equality-as-native", p.pp[5] = p.nn[5] /\ p.pp[6] = p.nn[6] /\ p.pn[5] = p.nn[5] /\ p.pn[6] = p.nn[6], <<p.nn[5], p.nn[6]>>))
      ELSE IF ClassOf(a) = "skipped" \/ ClassOf(b) = "skipped" THEN R(<<"ill-formed-operand">>, <<>>)
      ELSE R(<<B(sameTz), ClassOf(a), ClassOf(b), B(ia = ib)>>,
         (IF ambiguous THEN <<>>          \* CPython compares same-tzinfo values by wall clock (soundness rule 2)
